@@ -210,6 +210,42 @@ def writeChromX (rm : Bool) (cfg : Cfg) : Option Nat → List Record → List Ou
   | _, [] => []
   | prev, r :: rs => let o := writeRecordX rm cfg prev r; o :: writeChromX rm cfg o.prev rs
 
+
+/-! ### F65: `remove_existing_phasing=False` after `fixes/F65.patch`
+
+As coded, a call that is phased anew in keep mode is tagged on top of whatever it carried: an HP-phased call gets a phased GT
+and PS next to its HP (haplotagphase on the output of `phase --tag HP`), which `VcfReader` rejects as mixed phasing.  The
+repair removes the call's existing phase information right before it is tagged. -/
+
+def updateCallXF (cfg : Cfg) (t : Target) (r : Record) (c : Call) : Call × Option GtChange :=
+  let (c1, chg, isHet) := changeStep { cfg with repaired := true } t r c
+  match alookup t.comps r.pos, lookupPhase cfg.mav t r.pos with
+  | some comp, some p =>
+    if isHet then (setTag cfg.tag (clearPhasing { cfg with repaired := true } r.format c1) comp p, chg)
+    else if !c1.phased then (c1.set cfg.tag.key .missing, chg) else (c1, chg)
+  | _, _ => if !c1.phased then (c1.set cfg.tag.key .missing, chg) else (c1, chg)
+
+def writeRecordXF (cfg : Cfg) (prev : Option Nat) (r : Record) : Out :=
+  if reaches cfg prev r then
+    let calls2 := mapTargets cfg (fun t c => (updateCallXF cfg t r c).1) r.calls
+    let changes := cfg.targets.filterMap fun t =>
+      match clookup r.calls t.name with
+      | some c => (updateCallXF cfg t r c).2
+      | none => none
+    let touched := cfg.targets.any fun t =>
+      match clookup r.calls t.name with
+      | some c => touchesTag false cfg t r c
+      | none => false
+    let fmt := if touched then addKey r.format cfg.tag.key else r.format
+    let err := (r.calls.any fun nc => isTargetName cfg nc.1 && nc.2.gt.isNone) ||
+      (cfg.tag == .HP && !touched && !("HP" ∈ r.format) && cfg.samples.any fun s => !isTargetName cfg s)
+    ⟨{ r with format := fmt, calls := calls2 }, some r.pos, changes, err⟩
+  else ⟨r, prev, [], false⟩
+
+def writeChromXF (cfg : Cfg) : Option Nat → List Record → List Out
+  | _, [] => []
+  | prev, r :: rs => let o := writeRecordXF cfg prev r; o :: writeChromXF cfg o.prev rs
+
 /-- the chromosome loop of `run_whatshap`: one `write` call per table of the variant file (= per run of records with the
     same chromosome); the `Cfg` of a run carries its targets (none at all for a chromosome that `--chromosome` did not
     request: `vcf_writer.write(chromosome, {}, {})`) -/
